@@ -327,6 +327,10 @@ func run(in input) vh.Result {
 
 	var steps []string
 	var obs []stepObs
+	prevObs := map[ch.NodeID]string{}
+	for _, v := range r.voters {
+		prevObs[v] = "(RO false 0 0 [])"
+	}
 	stats := newStats()
 	for _, op := range in.Ops {
 		var opT, resT, resJ string
@@ -416,7 +420,12 @@ func run(in input) vh.Result {
 		for _, v := range r.voters {
 			o := r.observe(v)
 			so.Replicas = append(so.Replicas, o)
-			ros = append(ros, vh.App("RO", vh.B(o.Err), vh.N(o.LEO), vh.N(o.HW), vh.NList(o.IDs)))
+			// only replicas whose observation changed since the previous step are printed
+			term := vh.App("RO", vh.B(o.Err), vh.N(o.LEO), vh.N(o.HW), vh.NList(o.IDs))
+			if prevObs[v] != term {
+				prevObs[v] = term
+				ros = append(ros, vh.Pair(vh.N(uint64(v)), term))
+			}
 		}
 		obs = append(obs, so)
 		steps = append(steps, vh.Pair(opT, vh.App("Obs", resT, vh.List(ros))))
